@@ -255,6 +255,25 @@ def rule_b(ctx):
 FLAG_REGION = range(38, 48)
 
 
+def rule_b2(ctx):
+    """Writer side of C02.b: sections of the serialized frame are contiguous, slice assignments keep the size."""
+    rep = ctx.report
+    fc = frame_classes(ctx)
+    for tname, T in sorted(fc.items(), key=lambda kv: kv[1].name):
+        for backend in BACKENDS:
+            for entry in ('serialize', 'serialize_frame_prefix'):
+                try:
+                    wps = writer_paths(ctx, T, backend, entry)
+                except LayoutError as e:
+                    raise AnalysisError('C02.b: %s (%s backend): %s' % (T.name, backend, e))
+                probs = ctx.cache.get(('writer_positions', T, backend, entry), [])
+                c = '%s.%s / written sections contiguous and size-preserving (%s)' % (T.name, entry, backend)
+                if probs:
+                    rep.bad('C02.b', c, T.lookup('serialize') or T, probs[0], extra={'all': sorted(set(probs))[:5]})
+                else:
+                    rep.ok('C02.b', c, T.lookup('serialize') or T, '%d writer paths' % len(wps))
+
+
 def rule_c(ctx):
     rep = ctx.report
     fc = frame_classes(ctx)
@@ -763,5 +782,5 @@ def rule_f(ctx):
             'serialize_frame_prefix'), ok, detail or 'next bit written on all %d paths with content' % n)
 
 
-RULES = [('C02.a', rule_a), ('C02.b', rule_b), ('C02.c', rule_c), ('C02.d', rule_d), ('C02.e', rule_e),
+RULES = [('C02.a', rule_a), ('C02.b', rule_b), ('C02.b', rule_b2), ('C02.c', rule_c), ('C02.d', rule_d), ('C02.e', rule_e),
          ('C02.f', rule_f)]
